@@ -4517,7 +4517,7 @@ class Interp:
         else:
             self._set_attr(c, k, v)
 
-    def _summarize(self, rec, st, fr, test, extra_carried=(), extra_slots=()):
+    def _summarize(self, rec, st, fr, test, extra_carried=(), extra_slots=(), inplace_names=()):
         """one pass over the body on symbols: every carried local starts as <name>@in<k>; afterwards it is <name>@out<k> (or @exit<k> when
         the loop can also be left from inside its body, or was first tried by unrolling: the rules that understand counted loops do not
         take those for one).  Anything else the pass changes (an array / list / dict / attribute that existed before the loop, updated
@@ -4536,7 +4536,17 @@ class Interp:
         before = {n: fr.vars[n] for n in rec.carried}
         before_all = set(fr.vars)
         ins = {}
+        obj_state = []
         for n in rec.carried:
+            if n in inplace_names and isinstance(before[n], F.Rat):
+                # the array the name is bound to is updated in place by the pass (through this name or an alias): the *object* is the
+                # in-symbol for the pass, so every alias (another name, a container slot) sees the same value
+                obj = before[n]
+                sym = rec.in_sym(n)
+                obj_state.append((obj, (obj.n, obj.d)))
+                obj.n, obj.d = sym.n, sym.d
+                ins[n] = obj
+                continue
             ins[n] = rec.in_sym(n)
             self._set_var(fr, n, ins[n])
         # container slots that carry a value through the loop (found by a first pass): the slot starts as <label>@in<k>; an array held in
@@ -4559,6 +4569,8 @@ class Interp:
                 ins[label] = sym
 
         def restore_slots():
+            for obj, saved in obj_state:
+                obj.n, obj.d = saved
             for label, cont, key, cur, saved in slot_state:
                 if saved is not None:
                     cur.n, cur.d = saved
@@ -4598,6 +4610,7 @@ class Interp:
         if not extra_carried and not extra_slots:
             byid = {id(v): n for n, v in fr.vars.items() if isinstance(v, F.Rat) and n not in rec.carried and local(n)}
             more = [byid[id(e[1])] for e in undo if e[0] == "rat" and id(e[1]) in byid]
+            inplace_found = tuple(dict.fromkeys(more))
             # (and a local that a closure called in the pass rebinds through `nonlocal`)
             more += [e[2] for e in undo if e[0] == "var" and e[1] is fr.vars and e[2] not in names and e[2] in before_all
                      and not (isinstance(st, ast.For) and any(isinstance(x, ast.Name) and x.id == e[2] for x in ast.walk(st.target)))]
@@ -4614,6 +4627,8 @@ class Interp:
                 elif e[0] == "attr" and (id(e[1]), e[2]) in slots and e[3] is not _MISSING:
                     hit.append((id(e[1]), e[2]))
             more_slots = [slots[k_] for k_ in dict.fromkeys(hit)]
+            more_slots = [sl for sl in more_slots if not (isinstance(self._slot_get(sl[1], sl[2]), F.Rat) and id(self._slot_get(sl[1], sl[2])) in byid
+                                                          and byid[id(self._slot_get(sl[1], sl[2]))] in inplace_found)]
             if more or more_slots:
                 self.rollback(j)
                 for n in rec.carried:
@@ -4623,7 +4638,7 @@ class Interp:
                 if hasattr(rec, "item"):
                     rec2.item = rec.item
                 rec.__dict__.update(rec2.__dict__)
-                return self._summarize(rec, st, fr, test, tuple(dict.fromkeys(more)), tuple(more_slots))
+                return self._summarize(rec, st, fr, test, tuple(dict.fromkeys(more)), tuple(more_slots), inplace_found)
         self.commit(j)
         # a counted loop (for over a range, `while` on a counter: see trip_count) leaves <name>@out<k>; a loop whose number of passes
         # depends on the data leaves <name>@exit<k> (the rules do not take such a result for a value they can compare)
